@@ -47,6 +47,9 @@ ElemBits(at) ==
     [] at = "auid" -> 128
     [] OTHER -> 0
 
+(* byte length of the media types the alphabets use *)
+MediaTypeLen(mt) == CASE mt = "" -> 0 [] mt = "a" -> 1 [] mt = "a/b" -> 3 [] OTHER -> 3
+
 (* common.ElementCountToByteCount *)
 ByteCount(at, n) ==
   LET w == ElemBits(at) IN
@@ -508,8 +511,10 @@ Step(s, e) ==
       real(mm)   == Then(NotifyNewObject(s, TRUE), LAMBDA t : Do(CurRule(t), mm, t, e))
       viaArrayAPI == e.at \notin {"cbin", "ctxt", "media"}
       (* a media type must be valid UTF-8; the code hands it on unchecked     *)
+      (* its length counts as an array size (ValidateMediaType, checked first) *)
       MediaTypeThen(t, ee, mm) ==
-        IF ee.mtok THEN real(mm)
+        IF ~LenOK(t, MediaTypeLen(ee.mt)) THEN Fail(t, "limit")
+        ELSE IF ee.mtok THEN real(mm)
         ELSE IF Dev(t, "mediatype-utf8-unchecked")
              THEN Then(NotifyNewObject(UseDev(t, "mediatype-utf8-unchecked"), TRUE),
                        LAMBDA u : Do(CurRule(u), mm, u, ee))
